@@ -133,7 +133,10 @@ PROPS = {
                 "modelled: the polling loop of addReplicaDuringStartNoLock by the status it ends on (T1 fact cloneStatusLoop pins the loop conditions); two failures are exercised: 'snapshot not found', and a transfer cut in the middle (request 'clone <snap> fault': the sender of the first snapshot data file, the real ssync run as a child, delivers only the first half and exits with an error; the model answers that such a clone fails: status error, never listed RW); a crash of the source or clone process during the copy is not injected"]},
     "C10": {"lean": ["JivaVerif.Properties.C10", "JivaVerif.Properties.C10Cluster"],
             "runs": [rep("counter", 320, 30, 5000, 45, 3),
-                     {"engine": "clusterdiff", "profile": "healthy", "salt": 73, "quick": {"n": 160, "len": 40, "timeout": 900}, "thorough": {"n": 3000, "len": 50, "timeout": 3000}}],
+                     {"engine": "clusterdiff", "profile": "healthy", "salt": 73, "quick": {"n": 160, "len": 40, "timeout": 900}, "thorough": {"n": 3000, "len": 50, "timeout": 3000}},
+                     # 'does not change for writes applied while rebuilding … set equal to the source's when promoted': the
+                     # rebuild on the real stack, incl. a write between the promotion and the replica's SetRebuilding(false)
+                     dict(rep("rebuild", 96, 30, 800, 40, 78), **{"thorough": {"n": 800, "len": 40, "timeout": 6000}})],
             "modelled": FS + [
                 "volume level ('all RW replicas of a volume report the same count'): c10_rw_replicas_agree over the whole-volume model Model/Cluster.lean, for ANY history incl. stops in any state; tie: clusterdiff (the real controller over replica stand-ins that count like the replica model: +1 per write applied while RW, SetRevisionCounter at promotion) compares every directory's counter after every step",
                 "modelled: the counter file is one 4 KiB O_DIRECT block rewritten by a single pwrite under revisionLock; concurrent writers are one atomic step each"]},
